@@ -509,3 +509,10 @@ Definition answer_of (lv : leaves) (c : config) (e : wevent) : wanswer :=
 (* what the request line of an origin-form request looks like on the wire *)
 Definition render_origin (m p : bytes) (q : option bytes) : bytes :=
   m ++ [32] ++ p ++ (match q with Some q => 63 :: q | None => [] end) ++ [32] ++ k_http11 ++ [13; 10].
+
+(* the follow-up request of every case: GET /status on a new connection *)
+Definition status_request : bytes := Eval vm_compute in (bs "GET /status HTTP/1.1" ++ [13; 10; 13; 10]).
+
+(* two pipelined requests: a GET with a query for the rib endpoint, then a request line with a space in the target *)
+Definition example_conn : bytes :=
+  Eval vm_compute in (bs "GET /prefixes/1.2.3.0/24?include=x HTTP/1.1" ++ [13; 10; 13; 10] ++ bs "GET /no pe HTTP/1.1" ++ [13; 10; 13; 10]).
